@@ -425,6 +425,31 @@ theorem drain_eq_triples (n : NMem) (pat : Pat) (req : Ctx) : n.drain pat req = 
             simp [h]
           simp [h, h']
 
+/-! ### `triples_choices` -/
+
+theorem nodup_flatMap_disjoint {α β : Type} {l : List α} {f : α → List β} (hl : l.Nodup)
+    (hf : ∀ x ∈ l, (f x).Nodup) (hd : ∀ x ∈ l, ∀ y ∈ l, x ≠ y → ∀ t, t ∈ f x → t ∉ f y) :
+    (l.flatMap f).Nodup := by
+  induction l with
+  | nil => simp
+  | cons a r ih =>
+    rw [List.nodup_cons] at hl
+    simp only [List.flatMap_cons]
+    rw [List.nodup_append]
+    refine ⟨hf a (by simp), ih hl.2 (fun x hx => hf x (List.mem_cons_of_mem _ hx))
+      (fun x hx y hy => hd x (List.mem_cons_of_mem _ hx) y (List.mem_cons_of_mem _ hy)), ?_⟩
+    intro t ht t' ht' e
+    subst e
+    simp only [List.mem_flatMap] at ht'
+    obtain ⟨y, hy, hty⟩ := ht'
+    have hne : a ≠ y := fun e => hl.1 (e ▸ hy)
+    exact hd a (by simp) y (List.mem_cons_of_mem _ hy) hne t ht hty
+
+theorem slot_matches (sl : Slot) (a b : Option Nat) (x : Nat) (t : Triple) :
+    (sl.pat a b (some x)).matches t = true ↔ ((sl.pat a b none).matches t = true ∧ sl.get t = x) := by
+  cases sl <;> simp only [Slot.pat, Slot.get, Pat.matches, matchPos, Bool.and_eq_true, beq_iff_eq, Bool.true_and,
+    Bool.and_true] <;> grind
+
 /-- `next()` after `next()` unfolds the full run: a yield is the head of what remains, exhaustion means nothing remains -/
 theorem runGen_runAll (n : NMem) (pat : Pat) (req : Ctx) : ∀ (work : List Work),
     (∀ t, (n.runGen pat req work).2 = some t →
